@@ -586,8 +586,11 @@ impl RoutingThread {
                 if result.is_some() {
                     fetched_blocks.push((peer_index, *hash));
                 } else {
-                    // if we already have the block added don't need to request it from peer
-                    self.blockchain_sync_state.remove_entry(*hash);
+                    // we already have the block, or it cannot be fetched from this peer (no fetch url, old
+                    // version, unknown peer): it leaves this peer's queue. what other peers announced stays
+                    // queued; once the block has arrived those entries go the same way
+                    self.blockchain_sync_state
+                        .remove_entry_of_peer(*hash, peer_index);
                 }
             }
         }
